@@ -790,8 +790,11 @@ pub fn main(tier: Tier, replay: Option<Value>) -> i32 {
     encoder_histograms(&mut run, tier);
     interleaved_roundtrip(&mut run, tier);
     bit_io(&mut run, tier);
+    // the production call sites (which maximum accuracy log each field's table is built with): whole blocks
+    // whose code distributions are swept per field, through a scripted matcher (family shared with C16)
+    crate::c16::code_distributions(&mut run, tier, "C12");
     run.set("exhaustive", false);
-    run.set("rule", "complete small scopes: every normalised distribution for log 5 over <=4/5 symbols and logs 6..9 over <=2/3 symbols through both decoder construction paths vs zmodel; every byte string of length <=3 as a table description; one frame per state and per (state, next-bits) transition of each predefined table decoded by libzstd and by the crate; every histogram over <=4/5 symbols at boundary code positions with counts in {0,1,2,3,5,8,13,100,5000} through the production table builder (max log 9/9/8/6, zero-bit avoidance) with next_state checked for every (symbol, index); every symbol string of length 2..=8/9 over alphabets of 2,3,4 through the interleaved coder; every sequence of bit widths to depth 4/5 through writer and both readers. non-trivial = accepted by the specification / non-empty histogram");
+    run.set("rule", "complete small scopes: every normalised distribution for log 5 over <=4/5 symbols and logs 6..9 over <=2/3 symbols through both decoder construction paths vs zmodel; every byte string of length <=3 as a table description; one frame per state and per (state, next-bits) transition of each predefined table decoded by libzstd and by the crate; every histogram over <=4/5 symbols at boundary code positions with counts in {0,1,2,3,5,8,13,100,5000} through the production table builder (max log 9/9/8/6, zero-bit avoidance) with next_state checked for every (symbol, index); every symbol string of length 2..=8/9 over alphabets of 2,3,4 through the interleaved coder; every sequence of bit widths to depth 4/5 through writer and both readers; the tables written at the three production call sites for whole blocks whose literal-length / match-length / offset code distributions are swept (2..=all usable codes x 1..=64 uses, with and without a code used once), each frame parsed by the strict walker (accuracy log <= 9/9/8, description == table used, all bits consumed), libzstd and the crate's decoder. non-trivial = accepted by the specification / non-empty histogram");
     run.sample(json!({"case": "decoder_table", "dist": [30, -1, 1], "log": 5}));
     run.sample(json!({"case": "encoder_histogram", "counts": [[0, 5], [1, 0], [2, 1], [17, 100], [35, 1]], "max_log": 9}));
     run.sample(json!({"case": "interleaved", "symbols": [1, 1, 0, 2, 1, 1]}));
